@@ -1,3 +1,4 @@
+//go:build verif && !verifgen
 // +build verif,!verifgen
 
 package app
